@@ -429,6 +429,12 @@ def rules(ctx):
             rec = re.search(r'recompute_flip_dE\((\w+),', then_txt)
             flip = re.search(r'state\[(\w+)\]\*=\(?-1', then_txt)
             ok = bool(rec) and bool(flip) and rec.group(1) == flip.group(1) == idx
+            # ... under exactly the guards of the flip (a recompute that is skipped for some spins - no neighbours, say - leaves
+            # that spin's own cached dE with the wrong sign)
+            rc_ = [c_ for c_ in f.calls if c_['callee'] == 'recompute_flip_dE']
+            fl_ = [a_ for a_ in f.assigns if re.fullmatch(r'state\[\w+\]', a_['lhs']) and a_['op'] == '*=']
+            if ok and rc_ and fl_:
+                ok = all([str(g_) for g_ in c_['guards']] == [str(g_) for g_ in fl_[0]['guards']] for c_ in rc_)
             ctx.inst('R12.4', (f.unit, sname), 'flip <=> cache update', ok,
                      "the accepted flip of spin %s updates the cached dE of the same spin" % idx if ok else
                      "the accepted branch does not both flip state[%s] and recompute the cached dE for %s" % (idx, idx))
